@@ -838,6 +838,9 @@ func (ex *c18Exec) encode() (wire string, obs map[string]any, feats map[string]s
 			e.Int(cidx[c])
 		}
 	}
+	if len(tbl) >= 1000 || len(vals) >= 990 {
+		panic("c18 wire: key / value table too large for the packed entries")
+	}
 	e.Len(len(vals))
 	for _, v := range vals {
 		e.Bool(v.fresh)
@@ -860,7 +863,7 @@ func (ex *c18Exec) encode() (wire string, obs map[string]any, feats map[string]s
 			if !n.Dir {
 				v = vidx[sha256.Sum256(n.Val)]
 			}
-			e.Int(id(k)*100000 + v + 2)
+			e.Int(id(k)*1000 + v + 2)
 		}
 	}
 	encStore(ex.before)
@@ -903,7 +906,7 @@ func (ex *c18Exec) encode() (wire string, obs map[string]any, feats map[string]s
 		if ev.OK {
 			ok = 1
 		}
-		e.Int((ev.Tid*16+ev.Kind*2+ok)*100000 + id(ev.Key))
+		e.Int((ev.Tid*16+ev.Kind*2+ok)*1000 + id(ev.Key))
 	}
 	encStore(ex.after)
 
